@@ -230,6 +230,16 @@ def check_case(case):
     ref = None
     for o in orders:
         spec = to_spec(struct, o, case["pal"], case["volts"], case["phased"], case.get("pol", 1), case.get("prefix", False))
+        if case.get("blank_phase") and spec.get("phases"):   # the empty string as a phase name (accepted by set_sys_phases)
+            ren = {"a": ""}
+            spec["phases"] = {ren.get(k, k): v for k, v in spec["phases"].items()}
+            for c in spec["comps"]:
+                if isinstance(c.get("pc"), list):
+                    c["pc"] = [ren.get(x, x) for x in c["pc"]]
+                elif isinstance(c.get("pc"), dict):
+                    c["pc"] = {ren.get(k, k): v for k, v in c["pc"].items()}
+        if case.get("scale") and spec.get("phases"):   # load cycles of exactly 24 h and of a week (fewer than one cycle per day)
+            spec["phases"] = {k: v * case["scale"] for k, v in spec["phases"].items()}
         s = build(spec) if not case.get("holes") else build_holes(spec, analyse=True)   # holes: the same structure through an edit history
         res.stats["transitions"] += len(o) + 1
         try:
@@ -276,6 +286,8 @@ def check_case(case):
                     if not same:
                         res.v(("C07.order-dependent", col), "%s %s: %r vs %r (order %s)" % (key, col, val, v2, o))
                         break
+    if case.get("blank_phase"):
+        res.viol = [(("C07.blank-phase-name",) + sig[:1], det) for sig, det in res.viol]
     res.nontrivial = 1 if (len(orders) >= 2 and res.stats["lossy_subsystems"] >= 2) else 0
     res.classes.add("orders=%d" % min(len(orders), 50))
     return res
@@ -295,6 +307,11 @@ def gen_cases(tier):
                 yield dict(struct={k: [v[0], list(v[1])] for k, v in st.items()}, pal=pal, volts=list(volts), phased=False, energy=False, holes=True)
             if len(st) <= 5:  # phase durations edited between two analyses
                 yield dict(struct={k: [v[0], list(v[1])] for k, v in st.items()}, pal=pal, volts=list(volts), phased=True, energy=True, rephase=True)
+            if len(st) <= 5:
+                for scale in (21600.0, 151200.0, 1e-3):
+                    yield dict(struct={k: [v[0], list(v[1])] for k, v in st.items()}, pal=pal, volts=list(volts), phased=True, energy=True, scale=scale)
+            if len(st) <= 4:
+                yield dict(struct={k: [v[0], list(v[1])] for k, v in st.items()}, pal=pal, volts=list(volts), phased=True, energy=True, blank_phase=True)
             if "M" in st and len(st) <= 6:  # negative rails through the mux
                 yield dict(struct={k: [v[0], list(v[1])] for k, v in st.items()}, pal=pal, volts=list(volts), phased=False, energy=False, pol=-1)
 
